@@ -67,16 +67,26 @@ def generated_states(seed, n):
                         nd = reg.temp['duct_mw'].shape[1]
                         T0 = rng.uniform(500, 900)
                         spread = rng.choice([0.0, 1.0, 30.0])
+                        # nearly isothermal problems (differences of a few
+                        # millikelvin across the walls) are solved like any
+                        # other
+                        tiny = it % 4 == 3
+                        if tiny:
+                            spread = 0.0
                         reg.temp['coolant_int'] = T0 + spread * np.array(
                             [rng.uniform(-1, 1) for _ in
                              range(reg.temp['coolant_int'].shape[0])])
                         if 'coolant_byp' in reg.temp:
                             reg.temp['coolant_byp'] = (
-                                T0 + rng.uniform(-40, 40) + spread * np.array(
+                                T0 + (rng.uniform(-3e-3, 3e-3) if tiny
+                                      else rng.uniform(-40, 40))
+                                + spread * np.array(
                                     [[rng.uniform(-1, 1) for _ in range(nd)]
                                      for _ in range(reg.temp['coolant_byp'
                                                              ].shape[0])]))
-                        tg = T0 + rng.uniform(-60, 60) + np.array(
+                        tg = T0 + (rng.choice([-1, 1]) * rng.uniform(
+                            5e-4, 4e-3) if tiny else rng.uniform(-60, 60)
+                        ) + np.array(
                             [rng.uniform(-1, 1) * spread for _ in range(nd)])
                         hg = 10 ** rng.uniform(1, 6) * np.array(
                             [rng.uniform(0.5, 2.0) for _ in range(nd)])
@@ -92,7 +102,7 @@ def generated_states(seed, n):
                                     10 ** rng.uniform(1, 6) * np.array(
                                         [[1.0, rng.uniform(0.5, 2)]
                                          for _ in range(reg.n_bypass)]))
-                            if rng.random() < 0.3:
+                            if tiny or rng.random() < 0.3:
                                 p = None if rng.random() < 0.5 else \
                                     np.zeros(nd * reg.n_duct)
                             else:
